@@ -725,6 +725,8 @@ func (eng *Engine) VerifyFunc(fn *ssa.Function, fc *FuncContract) (res *FuncResu
 		ex.checkReads(fn, fc)
 	}
 	st0 := &State{heap: map[string]*Term{}, epoch: "0"}
+	// nil is never an allocated object (freshRef yields references > 0)
+	vc.Assume(TTrue, Not(Select(ex.alive(st0), IntLit(0))))
 	fr := &frame{fn: fn, env: map[ssa.Value]Value{}, isTop: true, contract: fc, lets: map[string]specBinding{}}
 	var args []Value
 	for _, p := range fn.Params {
@@ -871,6 +873,7 @@ func (eng *Engine) VerifyLemma(lm *Lemma) (res *FuncResult) {
 	vc := NewVC(lm.Pkg+"."+name, mode, eng.fset)
 	res = &FuncResult{Func: name, Key: lm.Pkg + "." + name, VC: vc, Tags: lm.Tags}
 	ex := newExec(eng, vc, nil, nil)
+	ex.scope = lm.Pkg
 	defer func() {
 		if r := recover(); r != nil {
 			switch e := r.(type) {
